@@ -6,7 +6,7 @@ import ApdVerif.Lemmas.C19Lemmas
 # C19 — Reduce and NumDigits are exact
 -/
 namespace Apd.Props
-open Apd
+open Apd Apd.C19L
 
 /-- NumDigits (table path for ≤128 bits, estimate path above) returns the exact number of
 decimal digits of |b| for every integer b, positive or negative, of any size. -/
